@@ -43,6 +43,7 @@ package ion
 //@ ensures[C04,C13] len(result) == len(b) + int(specUintLen(v))
 //@ ensures[C01,C13] forall k int :: 0 <= k && k < int(specUintLen(v)) ==>
 //@    result[len(b)+k] == specUintByte(v, specUintLen(v), uint64(k))
+//@ cases k 0 10
 //@ ensures[C04] forall k int :: 0 <= k && k < len(b) ==> result[k] == old(b)[k]
 //@ safe[C04]
 
@@ -52,14 +53,17 @@ package ion
 //@ ensures[C04,C13] len(result) == len(b) + int(specVarUintLen(v))
 //@ ensures[C01,C13] forall k int :: 0 <= k && k < int(specVarUintLen(v)) ==>
 //@    result[len(b)+k] == specVarUintByte(v, specVarUintLen(v), uint64(k))
+//@ cases k 0 10
 //@ ensures[C04] forall k int :: 0 <= k && k < len(b) ==> result[k] == old(b)[k]
 //@ safe[C04]
 
 //@ func appendInt
+//@ inlinecall appendUint
 //@ ensures[C04] vcFresh(result) || vcSameArray(result, b)
 //@ ensures[C04,C13] len(result) == len(b) + int(specIntLen(n))
 //@ ensures[C01,C13] forall k int :: 0 <= k && k < int(specIntLen(n)) ==>
 //@    result[len(b)+k] == specIntByte(n, specIntLen(n), uint64(k))
+//@ cases k 0 10
 //@ ensures[C04] forall k int :: 0 <= k && k < len(b) ==> result[k] == old(b)[k]
 //@ safe[C04]
 
@@ -69,6 +73,7 @@ package ion
 //@ ensures[C04,C13] len(result) == len(b) + int(specVarIntLen(v))
 //@ ensures[C01,C13] forall k int :: 0 <= k && k < int(specVarIntLen(v)) ==>
 //@    result[len(b)+k] == specVarIntByte(v, specVarIntLen(v), uint64(k))
+//@ cases k 0 10
 //@ ensures[C04] forall k int :: 0 <= k && k < len(b) ==> result[k] == old(b)[k]
 //@ safe[C04]
 
@@ -80,5 +85,39 @@ package ion
 //@ ensures[C01,C04] length >= 14 ==> result[len(b)] == code|0x0E
 //@ ensures[C01,C04] forall k int :: length >= 14 && 0 <= k && k < int(specVarUintLen(length)) ==>
 //@    result[len(b)+1+k] == specVarUintByte(length, specVarUintLen(length), uint64(k))
+//@ cases k 0 10
 //@ ensures[C04] forall k int :: 0 <= k && k < len(b) ==> result[k] == old(b)[k]
 //@ safe[C04]
+
+// ---------------------------------------------------------------------------
+// Trusted models of the library calls the readers make on their input (the ghost
+// stream vcStream in zz_verif_spec.go).
+
+//@ model (*bufio.Reader).ReadByte vcModelReadByte
+//@ model (*bufio.Reader).Discard vcModelDiscard
+//@ model (*bufio.Reader).Peek vcModelPeek
+//@ model io.ReadFull vcModelReadFull
+
+// ---------------------------------------------------------------------------
+// bitstream.go
+
+//@ func parseTag
+//@ ensures[C03] result0 == specBitcode((c>>4)&0x0F) && result1 == uint64(c&0x0F)
+//@ safe[C03,C06]
+
+//@ func (*bitstream).readVarUintLen
+//@ unroll loop0 10
+//@ requires bsStream(b) && bsPos(b)
+//@ requires bsRoom(b, max) || bsRoom(b, 10)
+//@ modifies b.pos, vcStreamOf(b.in).cur
+//@ ensures[C03,C06,C08] bsStream(b)
+//@ ensures[C03,C06,C08] bsPos(b)
+//@ ensures[C03,C13] err == nil ==> 1 <= result1 && result1 <= 10 && result1 <= max
+//@ ensures[C03,C08] err == nil ==> b.pos == old(b.pos)+result1 && vcStreamOf(b.in).cur == old(vcStreamOf(b.in).cur)+int(result1)
+//@ ensures[C03,C13] err == nil ==> specVarUintStop(vcStreamOf(b.in).data, old(vcStreamOf(b.in).cur), result1)
+//@ ensures[C03,C13] err == nil ==> result0 == specVarUintValue(vcStreamOf(b.in).data, old(vcStreamOf(b.in).cur), result1)
+//@ ensures[C03] specVarUintEnd(old(vcStreamOf(b.in))) != 0 && specVarUintEnd(old(vcStreamOf(b.in))) <= max ==>
+//@    err == nil && result1 == specVarUintEnd(old(vcStreamOf(b.in)))
+//@ ensures[C07] specVarUintEnd(old(vcStreamOf(b.in))) == 0 || specVarUintEnd(old(vcStreamOf(b.in))) > max ==> err != nil
+//@ ensures[C07,C19] err != nil ==> result0 == 0 && result1 == 0
+//@ safe[C06]
